@@ -73,6 +73,8 @@ type Options struct {
 	FaultCommits, FaultSets bool
 	// LateCommits makes commit gates sort last (a flush stays in flight by default).
 	LateCommits bool
+	// LatePuts does the same for non-transactional writes (pipeline / connector instance puts).
+	LatePuts bool
 	// NoGateStore leaves store writes ungated (E2 style use).
 	NoGateStore bool
 }
@@ -241,6 +243,7 @@ func (s *Stack) Arm() {
 	}
 	s.DB.FaultCommits = s.Opt.FaultCommits
 	s.DB.LateCommits = s.Opt.LateCommits
+	s.DB.LatePuts = s.Opt.LatePuts
 	s.DB.FaultSets = s.Opt.FaultSets
 	if s.Opt.FaultSets {
 		var keys []string
